@@ -5,11 +5,11 @@ go 1.24
 require (
 	github.com/anishathalye/porcupine v1.3.0
 	github.com/google/badwolf v0.0.0
+	github.com/pborman/uuid v1.2.1
 )
 
 require (
 	github.com/google/uuid v1.6.0 // indirect
-	github.com/pborman/uuid v1.2.1 // indirect
 	golang.org/x/sync v0.14.0 // indirect
 )
 
